@@ -171,6 +171,8 @@ func redactCommand(cmd *orderedmap.OrderedMap[string, any], shouldEagerRedact bo
 	if update, ok := cmd.Get("update"); ok {
 		if updateMap, ok := update.(*orderedmap.OrderedMap[string, any]); ok {
 			cmd.Set("update", redactQueryValues(updateMap, shouldEagerRedact, false, nil, []string{}))
+		} else if updatePipeline, ok := update.([]any); ok {
+			cmd.Set("update", redactUpdatePipeline(updatePipeline, shouldEagerRedact))
 		}
 	}
 	if updates, ok := cmd.Get("updates"); ok {
@@ -191,6 +193,8 @@ func redactCommand(cmd *orderedmap.OrderedMap[string, any], shouldEagerRedact bo
 	if update, ok := cmd.Get("u"); ok {
 		if updateMap, ok := update.(*orderedmap.OrderedMap[string, any]); ok {
 			cmd.Set("u", redactQueryValues(updateMap, shouldEagerRedact, false, nil, []string{}))
+		} else if updatePipeline, ok := update.([]any); ok {
+			cmd.Set("u", redactUpdatePipeline(updatePipeline, shouldEagerRedact))
 		}
 	}
 	if _, isInsert := cmd.Get("insert"); isInsert {
@@ -210,6 +214,16 @@ func redactCommand(cmd *orderedmap.OrderedMap[string, any], shouldEagerRedact bo
 			cmd.Set("pipeline", newPipeline)
 		}
 	}
+}
+
+// redactUpdatePipeline handles an update given as an aggregation pipeline
+// (update: [{$set: ...}, ...]) stage by stage, like the pipeline of an aggregate command.
+func redactUpdatePipeline(pipeline []any, shouldEagerRedact bool) []any {
+	newPipeline := make([]any, len(pipeline))
+	for i, stage := range pipeline {
+		newPipeline[i] = redactPipelineStage(stage, shouldEagerRedact, []string{}, isInSearchStage(stage))
+	}
+	return newPipeline
 }
 
 func redactFieldNamesFromPlanSummary(planSummary string) string {
